@@ -388,7 +388,10 @@ META = {
 
 # scheduler-level stream: the pool automaton (Model/Pool.v) accepts every real run; see Props/C11.v (pool theorems)
 from vp.sched.stream import SchedStream  # noqa: E402
-STREAMS.append(SchedStream('C11', name="sched-completion", feat={'abs': True, 'retries': True}, n_quick=28, n_thorough=500))
+# a task started with `cylc set --flow=2 --wait`: it does not spawn children, but must still leave the pool
+# when it finishes complete (and be retained when incomplete)
+_FLOW_WAIT = {'icp': 1, 'fcp': 1, 'tasks': ['a', 'b', 'c', 'd'], 'sections': [{'rec': 'R1', 'lines': [{'lhs': None, 'rhs': 'a'}, {'lhs': None, 'rhs': 'b'}, {'lhs': None, 'rhs': 'c'}, {'lhs': None, 'rhs': 'd'}, {'lhs': {'task': 'a', 'off': 0, 'out': 'succeeded'}, 'rhs': 'b'}, {'lhs': {'task': 'b', 'off': 0, 'out': 'succeeded'}, 'rhs': 'c'}, {'lhs': {'task': 'b', 'off': 0, 'out': 'x'}, 'rhs': 'd'}]}], 'customs': {'b': ['x']}, 'opt': [['a', 'succeeded', False], ['b', 'succeeded', False], ['b', 'x', False], ['c', 'succeeded', False], ['d', 'succeeded', False]], 'runahead': 1, 'queues': {}, 'seed': 3, 'fail_rate': 0, 'custom_rate': 1.0, 'disorder': 0, 'slow': {'a': 6}, 'ops': [{'tick': 1, 'cmd': 'set', 'args': {'tasks': ['1/b'], 'flow': ['2'], 'flow_wait': True, 'outputs': None, 'prerequisites': ['all']}}]}
+STREAMS.append(SchedStream('C11', name="sched-completion", feat={'abs': True, 'retries': True}, n_quick=28, n_thorough=500, corpus=[_FLOW_WAIT]))
 META["level_text"] += (" Scheduler level: every real run of generated workflows must be accepted by the pool automaton "
                        "(Model/Pool.v): a task is removed as completed only when finished with its completion expression "
                        "(derived by the harness from the documented rule) true, and no finished complete task is still "
